@@ -608,7 +608,10 @@ func cmdReplay(args []string) int {
 		return 0
 	}
 	fmt.Printf("REPLAY-VIOLATION %s\n", mustJSON(r.Violation))
-	if rf.Violation != nil && *rf.Violation == *r.Violation {
+	// A data race is the same violation if the detector reports a race again: which of the racing
+	// accesses it names first, and at which line, is not decided by the schedule alone.
+	sameRace := rf.Violation != nil && rf.Violation.Oracle == "data-race" && r.Violation.Oracle == "data-race" && rf.Violation.Property == r.Violation.Property
+	if rf.Violation != nil && (*rf.Violation == *r.Violation || sameRace) {
 		fmt.Println("REPLAY: same violation as recorded")
 	} else {
 		fmt.Println("REPLAY: violation differs from the recorded one")
